@@ -939,6 +939,14 @@ func init() {
 		"time.Sleep": func(fr *frame, a []value) value { retrySleep(fr); sched.sleepYield(); return nil },
 		"os.Exit":    func(fr *frame, a []value) value { panic(exitPanic(asInt64(a[0]))) },
 		"os.Getenv":  func(fr *frame, a []value) value { return "" },
+		"internal/bytealg.MakeNoZero": func(fr *frame, a []value) value {
+			n := int(asInt64(a[0]))
+			b := make([]value, n)
+			for i := range b {
+				b[i] = uint8(0)
+			}
+			return b
+		},
 		"internal/bytealg.IndexByteString": func(fr *frame, a []value) value {
 			return symIndexByte(strBytes(a[0]), a[1])
 		},
